@@ -334,7 +334,7 @@ def _parse_decl(t):
     return ns, attr, members, inits
 
 
-def rf59(run):
+def rf59(run, exhaustive=False):
     rule = 'RF59'
     run.rule(rule, 'mir2c out_item, executed abstractly over model modules (single scalar / array / bss items and sections of named + '
                    'anonymous data, bss and ref items): every named item or section prints exactly one well-formed C declaration with at '
@@ -361,6 +361,22 @@ def rf59(run):
         ('array then scalar then named scalar', [data(1, 2), data(0, 1), data(1, 1)], False),
         ('bss first then data', [bss(1, 2), data(0, 1), func()], True),
     ]
+    if exhaustive:
+        # every section of 1..4 items over {i64 scalar, u8[2], bss 3, ref}, followed by a function, a named scalar or the module end
+        import itertools
+        kinds = {'s': (lambda nm: data(nm, 1), 8, 8), 'a': (lambda nm: data(nm, 2, 'MIR_T_U8'), 2, 1), 'b': (lambda nm: bss(nm, 3), 3, 1),
+                 'r': (lambda nm: ref(nm), 8, 8)}
+        scenarios = []
+        for ln in range(1, 5):
+            for seq in itertools.product('sabr', repeat=ln):
+                off, mix = 0, False
+                for k_ in seq:
+                    if off % kinds[k_][2] != 0:
+                        mix = True
+                    off += kinds[k_][1]
+                for end_name, end in (('func', [func()]), ('named', [data(1, 1)]), ('end', [])):
+                    items_ = [kinds[k_][0](1 if j == 0 else 0) for j, k_ in enumerate(seq)] + end
+                    scenarios.append(('%s+%s' % (''.join(seq), end_name), items_, mix))
     n = 0
     for title, items, mixed in scenarios:
         # sections of the scenario
